@@ -52,7 +52,8 @@ var verifPool = struct {
 	reports    []string
 	logOn      bool
 	log        []VerifPoolEvent
-}{bufs: map[uintptr]*verifBuf{}}
+	sweepAt    int // table size at which the next Put sweeps
+}{bufs: map[uintptr]*verifBuf{}, sweepAt: verifPoolMaxTracked}
 
 const verifPoolMaxTracked = 1 << 15
 
@@ -166,8 +167,11 @@ func verifPoolPut(buf []byte) {
 		full[i] = VerifPoison
 	}
 	b.pin = full
-	if len(verifPool.bufs) > verifPoolMaxTracked {
+	if len(verifPool.bufs) > verifPool.sweepAt {
 		verifPoolSweep(true)
+		// buffers still owned stay tracked: sweep again only after the table has doubled,
+		// so that a Put costs O(1) amortised however many buffers are held
+		verifPool.sweepAt = max(verifPoolMaxTracked, 2*len(verifPool.bufs))
 	}
 }
 
